@@ -15,14 +15,14 @@ package moss
 //@ pure func vlOf(w uint64) int = bits(w, 0, 28)
 
 //@ func encodeOpKeyLenValLen(operation uint64, keyLen, valLen int) uint64
-//@   props C19
+//@   props C19 C01 C04
 //@   attr bits exact
 //@   requires 0 <= keyLen && keyLen <= maxKeyLength && 0 <= valLen && valLen <= maxValLength
 //@   ensures @roundtrip opOf(result) == opOf(operation) && klOf(result) == keyLen && vlOf(result) == valLen
 //@   ensures @reserved bits(result, 60, 64) == 0 && bits(result, 28, 32) == 0
 
 //@ func decodeOpKeyLenValLen(opklvl uint64) (uint64, int, int)
-//@   props C19
+//@   props C19 C01 C04
 //@   attr bits exact
 //@   ensures @fields r0 == opOf(opklvl) && r1 == klOf(opklvl) && r2 == vlOf(opklvl)
 //@   ensures @ranges 0 <= r1 && r1 <= maxKeyLength && 0 <= r2 && r2 <= maxValLength
@@ -96,7 +96,7 @@ package moss
 // ---- segment searches (C09, C14, C01, C10) -----------------------------------------
 
 //@ func (a *segment) findStartKeyInclusivePos(startKeyInclusive []byte) int
-//@   props C09 C14
+//@   props C09 C14 C01 C02 C10
 //@   requires segValid(a) && segSorted(a) && indexOK(a)
 //@   ensures @range 0 <= result && result <= segLen(a)
 //@   ensures @below forall p int :: 0 <= p && p < result ==> keyRank(a, p) < rank(startKeyInclusive)
@@ -108,7 +108,7 @@ package moss
 
 //@ func (a *segment) findKeyPos(key []byte) (int, error)
 //@   dead ErrSegmentCorrupted
-//@   props C14 C01 C10
+//@   props C14 C01 C10 C02 C03 C04 C08 C11 C13
 //@   requires segValid(a) && segSorted(a) && indexOK(a)
 //@   ensures @noerr r1 == nil
 //@   ensures @found r0 >= 0 ==> r0 < segLen(a) && keyRank(a, r0) == rank(key)
@@ -125,7 +125,7 @@ package moss
 //@ pure func keyAt(a *segment, i int) []byte = a.buf[kstart(a, i) : kstart(a, i) + klen(a, i)]
 
 //@ func (a *segment) getOperationKeyVal(pos int) (uint64, []byte, []byte)
-//@   props C01 C10 C19 C09
+//@   props C01 C10 C19 C09 C02 C03 C04 C08 C11 C13
 //@   requires segValid(a) && 0 <= pos
 //@   ensures @inrange pos < segLen(a) ==> r0 == kop(a, pos) && r1 == keyAt(a, pos) && r2 == valAt(a, pos)
 //@   ensures @outrange pos >= segLen(a) ==> r0 == 0 && r1 == nil && r2 == nil
@@ -133,7 +133,7 @@ package moss
 
 //@ func (a *segment) Get(key []byte) (operation uint64, val []byte, err error)
 //@   dead pos, err = a.findKeyPos(key)
-//@   props C01 C10 C14 C19
+//@   props C01 C10 C14 C19 C02 C03 C04 C08 C11 C13
 //@   requires segValid(a) && segSorted(a) && indexOK(a)
 //@   ensures @noerr err == nil
 //@   ensures @present forall p int :: 0 <= p && p < segLen(a) && keyRank(a, p) == rank(key) ==> operation == kop(a, p) && val == valAt(a, p)
@@ -156,7 +156,7 @@ package moss
 //@ pure func curOf(sc SegmentCursor) *segmentCursor = ptrOf(sc, "*segmentCursor")
 
 //@ func (a *segment) Cursor(startKeyInclusive []byte, endKeyExclusive []byte) (SegmentCursor, error)
-//@   props C09 C14
+//@   props C09 C14 C01 C02 C10
 //@   requires segOK(a)
 //@   ensures @shape r1 == nil && typeIs(r0, "*segmentCursor") && fresh(curOf(r0)) && curOf(r0).s == a && curOf(r0).curr == curOf(r0).start
 //@   ensures @start lowerBound(a, startKeyInclusive, curOf(r0).start)
@@ -165,13 +165,13 @@ package moss
 //@   ensures @ok cursorOK(curOf(r0))
 
 //@ func (c *segmentCursor) Current() (operation uint64, key []byte, val []byte)
-//@   props C09
+//@   props C09 C01 C02 C10
 //@   requires cursorOK(c)
 //@   ensures @in c.curr < c.end ==> operation == kop(c.s, c.curr) && key == keyAt(c.s, c.curr) && val == valAt(c.s, c.curr) && rank(key) == keyRank(c.s, c.curr)
 //@   ensures @out c.curr >= c.end ==> operation == 0 && key == nil && val == nil
 
 //@ func (c *segmentCursor) Next() error
-//@   props C09
+//@   props C09 C01 C02 C10
 //@   requires cursorOK(c)
 //@   modifies c.curr
 //@   ensures @step c.curr == old(c.curr) + 1
@@ -179,7 +179,7 @@ package moss
 //@   ensures @err result != nil ==> result == ErrIteratorDone
 
 //@ func (c *segmentCursor) Seek(startKeyInclusive []byte) error
-//@   props C09
+//@   props C09 C01 C02 C10
 //@   requires cursorOK(c)
 //@   modifies c.curr
 //@   ensures @clamp c.curr >= c.start && c.curr <= segLen(c.s)
@@ -189,7 +189,7 @@ package moss
 //@   ensures @err result != nil ==> result == ErrIteratorDone
 
 //@ func (c *segmentCursor) nextDelta(delta int) error
-//@   props C09 C14
+//@   props C09 C14 C01 C02 C10
 //@   requires cursorOK(c) && delta >= 0
 //@   modifies c.curr
 //@   ensures @step c.curr == old(c.curr) + delta
@@ -204,7 +204,7 @@ package moss
 // ---- building a segment (C19) ------------------------------------------------------------
 
 //@ func (a *segment) mutateEx(operation uint64, keyStart, keyLength, valLength int) error
-//@   props C19 C01
+//@   props C19 C01 C04
 //@   requires a != nil && len(a.kvs) % 2 == 0 && keyLength >= 0 && valLength >= 0 && keyStart >= 0
 //@   modifies a.kvs, elems(a.kvs), a.totOperationSet, a.totOperationDel, a.totOperationMerge, a.totKeyByte, a.totValByte
 //@   ensures @keyTooLarge keyLength > maxKeyLength ==> result == ErrKeyTooLarge && a.kvs == old(a.kvs)
@@ -256,7 +256,7 @@ package moss
 //@   loop 1: lemma mulsucc(sindex.numKeys, sindex.hop)
 
 //@ func (a *segment) mutate(operation uint64, key, val []byte) error
-//@   props C19
+//@   props C19 C01 C04
 //@   requires a != nil && len(a.kvs) % 2 == 0 && arr(key) != arr(a.buf) && arr(val) != arr(a.buf)
 //@   modifies a.buf, elems(a.buf), a.kvs, elems(a.kvs), a.totOperationSet, a.totOperationDel, a.totOperationMerge, a.totKeyByte, a.totValByte
 //@   ensures @keyTooLarge len(key) > maxKeyLength ==> result == ErrKeyTooLarge && a.kvs == old(a.kvs)
@@ -375,7 +375,7 @@ package moss
 
 //@ func (ss *segmentStack) get(key []byte, segStart int, base *segmentStack, readOptions ReadOptions) ([]byte, error)
 //@   dead op, val, err := b.Get(key)
-//@   props C01 C08 C10 C13
+//@   props C01 C08 C10 C13 C02 C03 C04 C11
 //@   requires stackOK(ss) && -1 <= segStart && segStart < len(ss.a) && (base != nil ==> stackOK(base))
 //@   ensures @read r1 == nil ==> r0 == readFrom(ss, segStart, key, base, readOptions.SkipLowerLevel)
 //@   loop 1: invariant -1 <= seg && seg <= segStart
@@ -383,12 +383,12 @@ package moss
 //@   loop 1: decreases seg + 1
 
 //@ func (ss *segmentStack) getMerged(key, val []byte, segStart int, base *segmentStack, readOptions ReadOptions) ([]byte, error)
-//@   props C01 C08 C13
+//@   props C01 C08 C13 C02 C03 C04 C10 C11
 //@   requires stackOK(ss) && -1 <= segStart && segStart < len(ss.a) && (base != nil ==> stackOK(base))
 //@   ensures @once r1 == nil ==> r0 == fullMerge(moOf(ss), key, readFrom(ss, segStart, key, base, readOptions.SkipLowerLevel), val)
 
 //@ func (ss *segmentStack) Get(key []byte, readOptions ReadOptions) ([]byte, error)
-//@   props C01 C10 C13
+//@   props C01 C10 C13 C02 C03 C04 C08 C11
 //@   requires stackOK(ss)
 //@   ensures @read r1 == nil ==> r0 == readFrom(ss, len(ss.a) - 1, key, nil, readOptions.SkipLowerLevel)
 
@@ -469,7 +469,7 @@ package moss
 // this answers true (a batch that touches only child collections has no
 // top-level segment).
 //@ func (ss *segmentStack) isEmpty() bool
-//@   props C04 C20 C11 C01 C13
+//@   props C04 C20 C11 C01 C13 C06 C07
 //@   requires treeOK(ss)
 //@   ensures @tree result == treeEmpty(ss)
 //@   loop 1: invariant forall c string :: visited(c) ==> treeEmpty(ss.childSegStacks[c])
@@ -598,18 +598,19 @@ package moss
 // (for a partial compaction the file it writes to is the live data file);
 // a failed full compaction schedules the file it started for removal.
 //@ func (s *Store) compact(footer *Footer, partialCompactStart int, higher Snapshot, persistOptions StorePersistOptions) error
-//@   props C18 C06 C07 C15
+//@   props C18 C06 C07 C15 C04 C05 C11 C12
 //@   attr obligations call-requires ensures
-//@   attr only-labels unpublished notReadOnly readOnlyFlag liveKept cleanup
+//@   attr only-labels unpublished notReadOnly readOnlyFlag liveKept cleanup wholeFooterWritten
 //@   requires @notReadOnly !readOnlyMode()
 //@   modifies *
 //@   ensures @unpublished result != nil ==> s.footer == old(s.footer)
 //@   ensures @liveKept result != nil ==> doomed == old(doomed) || fresh(doomed)
 //@   ensures @cleanup result != nil && partialCompactStart == 0 && local(frefCompact) != nil ==> doomed == local(frefCompact)
+//@   ensures @wholeFooterWritten result == nil ==> persistedLocs == len(s.footer.SegmentLocs)
 
 //@ func (s *Store) compactMaybe(higher Snapshot, persistOptions StorePersistOptions) (bool, error)
 //@   dead footer, err := s.snapshot()
-//@   props C18 C06
+//@   props C18 C06 C04 C05 C07 C11 C12 C15
 //@   attr obligations call-requires ensures
 //@   attr only-labels unpublished notReadOnly readOnlyFlag modeLinked
 //@   requires @modeLinked s != nil && s.options != nil && readOnlyMode() == s.options.CollectionOptions.ReadOnly
@@ -617,7 +618,7 @@ package moss
 //@   ensures @unpublished r1 != nil || !r0 ==> s.footer == old(s.footer)
 
 //@ func (s *Store) persist(higher Snapshot, persistOptions StorePersistOptions) (Snapshot, error)
-//@   props C18 C06
+//@   props C18 C06 C04 C05 C07 C11 C12 C15
 //@   attr obligations call-requires ensures
 //@   attr only-labels unpublished notReadOnly readOnlyFlag modeLinked
 //@   requires @modeLinked s != nil && s.options != nil && readOnlyMode() == s.options.CollectionOptions.ReadOnly
@@ -657,7 +658,7 @@ package moss
 // section moves to the clean slot only when CachePersisted, and the result
 // becomes the lower level; the cached snapshot is dropped.
 //@ func (m *collection) runPersister()
-//@   props C13 C18 C16 C01
+//@   props C13 C18 C16 C01 C03 C04 C15
 //@   attr obligations lock-inv region guarded lock inv-entry inv-preserve
 //@   requires @notReadOnly !readOnlyMode()
 //@   requires m != nil && m.options != nil && !held(m.m) && m.stats != nil
@@ -668,6 +669,9 @@ package moss
 //@   unlock 3: @clean m.stackClean == ite(m.options.CachePersisted, atAcquire(m.stackDirtyBase), nil)
 //@   unlock 3: @lower m.lowerLevelSnapshot != atAcquire(m.lowerLevelSnapshot) || m.lowerLevelSnapshot == nil
 //@   unlock 3: @restKept m.stackDirtyTop == atAcquire(m.stackDirtyTop) && m.stackDirtyMid == atAcquire(m.stackDirtyMid)
+//@   unlock 3: @succeeded local(err) == nil
+//@   unlock 3: @prevsTaken local(stackCleanPrev) == atAcquire(m.stackClean) && local(llssPrev) == atAcquire(m.lowerLevelSnapshot) &&
+//@       (!m.options.CachePersisted ==> local(stackDirtyBasePrev) == atAcquire(m.stackDirtyBase))
 //@   loop 1: modifies m.waitDirtyIncomingCh, m.waitDirtyOutgoingCh, m.latestSnapshot, m.highestIncarNum, m.stackDirtyTop, m.stackDirtyMid, m.stackDirtyBase, m.stackClean, m.lowerLevelSnapshot, m.childCollections,
 //@       heaps(CollectionStats), heaps(segmentStack), heaps(SnapshotWrapper), heaps(Footer), ioFailed, unsynced, knownSize, footerEarly
 //@   loop 1: invariant !held(m.m)
@@ -685,7 +689,7 @@ package moss
 // The merger ingests exactly mid ++ top (clean and base skipped) through the
 // snapshot callback; everything else of its loop is outside the contracts.
 //@ func (m *collection) runMerger()
-//@   props C01 C13 C18
+//@   props C01 C13 C18 C03 C16
 //@   attr obligations call-requires
 //@   attr only-labels mergerShape notReadOnly
 //@   requires @notReadOnly !readOnlyMode()
@@ -720,7 +724,7 @@ package moss
 //@         (forall j int :: 0 <= j && j < len(higher.a) ==> rv.a[len(fs.a) - sp + j] == higher.a[j]))
 
 //@ func (s *Store) mergeSegStacks(footer *Footer, splicePoint int, higher *segmentStack) (rv, rvBase *segmentStack)
-//@   props C07 C11 C04 C08
+//@   props C07 C11 C04 C08 C05
 //@   requires @args higher != nil && (footer != nil && footer.ss != nil ==> 0 <= splicePoint && splicePoint <= len(footer.ss.a))
 //@   ensures @fresh rv != nil && fresh(rv) && fresh(arr(rv.a))
 //@   ensures @concat mergedSeq(rv, footerStack(footer), splicePoint, higher)
@@ -781,7 +785,7 @@ package moss
 
 //@ func (ss *segmentStack) merge(mergeAll bool, base *segmentStack) (*segmentStack, uint64, error)
 //@   dead mergedSegment, err := newSegment(
-//@   props C01 C08 C13 C20 C11
+//@   props C01 C08 C13 C20 C11 C03 C07
 //@   attr obligations ensures inv-entry inv-preserve call-requires
 //@   attr only-labels top children keepsTombstones levels dest
 //@   requires ss != nil
@@ -811,7 +815,7 @@ package moss
 //@     (storeFooter != nil ==> (forall i int :: 0 <= i && i < len(storeFooter.SegmentLocs) ==> f.SegmentLocs[i] == storeFooter.SegmentLocs[i]))
 
 //@ func (s *Store) buildNewFooter(storeFooter *Footer, ss *segmentStack) *Footer
-//@   props C04 C11 C12
+//@   props C04 C11 C12 C06
 //@   requires ss != nil
 //@   ensures @fresh result != nil && fresh(result) && fresh(arr(result.SegmentLocs))
 //@   ensures @extends extendsFooter(result, storeFooter, ss)
@@ -832,7 +836,7 @@ package moss
 // right.SegmentLocs == left.SegmentLocs[0:sp] ++ old(right.SegmentLocs); child
 // footers are left alone (child collections are compacted fully).
 //@ func (right *Footer) spliceFooter(left *Footer, splicePoint int)
-//@   props C07 C11 C04
+//@   props C07 C11 C04 C05
 //@   requires @args right != nil && left != nil && right != left && 0 <= splicePoint && splicePoint <= len(left.SegmentLocs)
 //@   modifies right.SegmentLocs
 //@   ensures @len len(right.SegmentLocs) == splicePoint + old(len(right.SegmentLocs))
@@ -842,13 +846,14 @@ package moss
 // The footer written by a compaction belongs to the incarnation of the stack
 // it was built from and has exactly that stack's children.
 //@ func (s *Store) writeSegments(newSS, base *segmentStack, frefCompact *FileRef, fileCompact File, includeDeletes bool, syncAfterBytes int) (compactFooter *Footer, err error)
-//@   props C07 C11 C04 C05
+//@   props C07 C11 C04 C05 C06
 //@   attr obligations ensures call-requires
-//@   attr only-labels incar oneSegment appendOnly
+//@   attr only-labels incar oneSegment appendOnly freshFooter
 //@   requires newSS != nil && treeOK(newSS) && StorePageSize > 0 && StorePageSize <= 1073741824
 //@   modifies s.totCompactionBeforeBytes
 //@   ensures @incar err == nil ==> compactFooter != nil && compactFooter.incarNum == newSS.incarNum
 //@   ensures @oneSegment err == nil ==> len(compactFooter.SegmentLocs) == 1
+//@   ensures @freshFooter err == nil ==> fresh(compactFooter)
 //@   loop 1: invariant compactFooter != nil && fresh(compactFooter) && compactFooter.incarNum == newSS.incarNum && len(compactFooter.SegmentLocs) == 1
 
 // ---- reverting to an earlier footer (C12, C11) ---------------------------------------------------------
@@ -935,7 +940,7 @@ package moss
 //@     (it.op != 0 ==> itCur(it).curr < itCur(it).end) && (it.op == 0 ==> itCur(it).curr >= itCur(it).end)
 
 //@ func (iter *iteratorSingle) Next() error
-//@   props C09
+//@   props C09 C01 C02 C10
 //@   requires itPosOK(iter)
 //@   decreases itCur(iter).end - itCur(iter).curr + 1
 //@   modifies iter.op, iter.k, iter.v, itCur(iter).curr
@@ -946,14 +951,14 @@ package moss
 //@       (forall q int :: old(itCur(iter).curr) < q && q < itCur(iter).end ==> !liveAt(iter, q))
 
 //@ func (iter *iteratorSingle) CurrentEx() (entryEx EntryEx, key, val []byte, err error)
-//@   props C09
+//@   props C09 C01 C02 C10
 //@   requires itOK(iter)
 //@   ensures @done iter.op == 0 ==> err == ErrIteratorDone && key == nil && val == nil
 //@   ensures @entry iter.op != 0 ==> err == nil && entryEx.Operation == kop(itCur(iter).s, itCur(iter).curr) &&
 //@       key == keyAt(itCur(iter).s, itCur(iter).curr) && val == valAt(itCur(iter).s, itCur(iter).curr)
 
 //@ func (iter *iteratorSingle) Current() ([]byte, []byte, error)
-//@   props C09 C08
+//@   props C09 C08 C01 C02 C10
 //@   requires itOK(iter)
 //@   ensures @done iter.op == 0 ==> r2 == ErrIteratorDone && r0 == nil && r1 == nil
 //@   ensures @set iter.op != 0 && iter.op != OperationDel && iter.op != OperationMerge ==> r2 == nil &&
@@ -971,7 +976,7 @@ package moss
 
 // SeekTo(x): smallest enumerated in-range position whose key is >= x (and >= the start of the range).
 //@ func (iter *iteratorSingle) SeekTo(seekToKey []byte) error
-//@   props C09
+//@   props C09 C01 C02 C10
 //@   requires itOK(iter)
 //@   modifies iter.op, iter.k, iter.v, itCur(iter).curr
 //@   ensures @ok itOK(iter)
@@ -996,7 +1001,7 @@ package moss
 //@   modifies ioFailed, fields(f)
 //@   ensures err != nil ==> ioFailed
 //@   ensures !old(ioFailed) && err == nil ==> !ioFailed
-//@   ensures @identity f.filePos == old(f.filePos) && f.fileName == old(f.fileName) && f.refs == old(f.refs)
+//@   ensures @identity f.filePos == old(f.filePos) && f.fileName == old(f.fileName) && f.refs == old(f.refs) && len(f.SegmentLocs) == old(len(f.SegmentLocs))
 
 // encoding/json only sets exported fields: where a footer was found, what it
 // is called and its reference count are not part of the JSON.
@@ -1022,7 +1027,7 @@ package moss
 //@   ensures @info r1 == nil ==> r0 != nil
 
 //@ func ScanFooter(options *StoreOptions, fref *FileRef, fileName string, pos int64) (*Footer, error)
-//@   props C05 C19 C12
+//@   props C05 C19 C12 C04 C06
 //@   attr obligations P0 ensures call-requires decreases
 //@   requires fref != nil && fref.file != nil && pos >= 0 && pos <= 4611686018427387904 && !ioFailed
 //@   requires StorePageSize > 0 && StorePageSize <= 1073741824 && footerBegLen == 20 && footerEndLen == 24 && lenMagicBeg == 6 && lenMagicEnd == 6
@@ -1071,7 +1076,7 @@ package moss
 //@ func (s *Store) persistFooterUnsynced(file File, footer *Footer) error
 //@   dead padding := make(
 //@   dead file.WriteAt(padding
-//@   props C05 C06
+//@   props C05 C06 C04 C07 C12
 //@   attr obligations call-requires ensures
 //@   requires file != nil && footer != nil && StorePageSize > 0 && StorePageSize <= 1073741824 && knownSize >= 0 && knownSize <= 4611686018427387904
 //@   requires @platform AllocationGranularity == StorePageSize
@@ -1083,13 +1088,17 @@ package moss
 // Data first, then the footer, then the footer is made durable: with syncing
 // on, the footer is never written while earlier writes are unsynced, and on
 // success nothing is left unsynced.
+// Ghost: how many segment locations the footer most recently written by
+// persistFooter listed (what is on disk must be what gets installed).
+//@ ghost var persistedLocs int
 //@ func (s *Store) persistFooter(file File, footer *Footer, options StorePersistOptions) error
-//@   props C05 C06 C12
+//@   props C05 C06 C12 C04 C07
 //@   attr obligations call-requires ensures
 //@   requires file != nil && footer != nil && StorePageSize > 0 && StorePageSize <= 1073741824 && knownSize >= 0 && knownSize <= 4611686018427387904
 //@   requires @platform AllocationGranularity == StorePageSize
-//@   modifies ioFailed, unsynced, footerEarly, footer.fileName, footer.filePos
+//@   modifies ioFailed, unsynced, footerEarly, footer.fileName, footer.filePos, persistedLocs
 //@   ensures @order !options.NoSync && !old(footerEarly) ==> !footerEarly
+//@   ensures @assume_written result == nil ==> persistedLocs == len(footer.SegmentLocs)
 //@   ensures @durable result == nil && !options.NoSync ==> !unsynced
 //@   ensures @reported ioFailed && !old(ioFailed) ==> result != nil
 
@@ -1194,7 +1203,7 @@ package moss
 // the one count it holds on every child footer (each exactly once), and of
 // nothing else at its level or above.
 //@ func (f *Footer) DecRef()
-//@   props C15 C02
+//@   props C15 C02 C06 C07
 //@   requires f != nil
 //@   modifies heap(Footer.refs), heap(Footer.SegmentLocs), heap(Footer.ss), heap(Footer.ChildFooters), heap(mmapRef.refs), heap(mmapRef.buf), heap(mmapRef.fref), heap(mmapRef.mm), heap(FileRef.refs), heap(FileRef.file), heap(FileRef.beforeCloseCallbacks), heap(FileRef.afterCloseCallbacks), ioFailed
 //@   ensures @count f.refs == old(f.refs) - 1
@@ -1298,7 +1307,7 @@ package moss
 //@ assume-invariant collTree: forall p *collection, c string :: has(p.childCollections, c) ==> collDepth(p.childCollections[c]) == collDepth(p) + 1
 
 //@ func (m *collection) buildStackDirtyTop(b *batch, curStackTop *segmentStack) (rv *segmentStack)
-//@   props C03 C01 C02 C11 C20
+//@   props C03 C01 C02 C11 C20 C13 C16
 //@   attr obligations ensures inv-entry inv-preserve P0 call-requires
 //@   attr only-labels fresh pushed ok carried counter newIncar
 //@   requires m != nil && secOK(curStackTop) && (b != nil ==> b.segment != nil && segOK(b.segment))
@@ -1342,7 +1351,7 @@ package moss
 // stack) and drops the cached snapshot; the back-pressure bound is kept; a
 // closed collection refuses non-empty batches.
 //@ func (m *collection) ExecuteBatch(bIn Batch, writeOptions WriteOptions) error
-//@   props C03 C16 C01 C02
+//@   props C03 C16 C01 C02 C11 C13 C20
 //@   attr obligations lock-inv region guarded lock ensures inv-entry inv-preserve
 //@   requires m != nil && m.options != nil && !m.options.DeferredSort && !held(m.m) && m.stats != nil && DefaultCollectionOptions.MaxPreMergerBatches >= 1
 //@   requires typeIs(bIn, "*batch") && ptrOf(bIn, "*batch") != nil ==> ptrOf(bIn, "*batch").segment != nil && segValid(ptrOf(bIn, "*batch").segment) && ptrOf(bIn, "*batch").segment.index == nil && ptrOf(bIn, "*batch") != deletedChildBatchMarker
@@ -1373,7 +1382,7 @@ package moss
 // one critical section, and wakes the persister when it does; a base section
 // that is still being persisted is never replaced.
 //@ func (m *collection) mergerNotifyPersister()
-//@   props C13 C16 C04 C01
+//@   props C13 C16 C04 C01 C03
 //@   attr obligations lock-inv region guarded lock wait
 //@   attr waits-observe-stop stopCh
 //@   requires m != nil && m.options != nil && !held(m.m) && m.stats != nil
@@ -1427,7 +1436,7 @@ package moss
 // dst.a becomes dst.a ++ src.a (child stacks are appended recursively; only
 // the top level is stated).
 //@ func (m *collection) appendChildStacks(dst, src *segmentStack) *segmentStack
-//@   props C01 C02 C03 C13
+//@   props C01 C02 C03 C13 C11
 //@   attr obligations ensures inv-entry inv-preserve
 //@   attr only-labels same nilsrc appended
 //@   requires m != nil && dst != nil && (src != nil ==> before(src, dst))
@@ -1462,7 +1471,7 @@ package moss
 // (which installs the stack as the new middle section): it must be given
 // exactly mid ++ top.
 //@ func (m *collection) snapshot(skip uint32, cb func(*segmentStack), gotLock bool) (*segmentStack, int, int, int, int)
-//@   props C01 C02 C03 C13
+//@   props C01 C02 C03 C13 C11 C16 C20
 //@   attr obligations ensures call-requires
 //@   attr only-labels shape lock noCallback concat lower mergerShape hasLock
 //@   attr callback cb collection.runMerger$3
@@ -1581,7 +1590,7 @@ package moss
 // source (one segment, or only the lower level) has entries in the range at
 // all; sources used up while skipping a leading deletion still count (S26).
 //@ func (iter *iterator) optimize() (Iterator, error)
-//@   props C09 C01
+//@   props C09 C01 C08 C10
 //@   attr obligations ensures
 //@   requires iter != nil && iter.ss != nil
 //@   ensures @oneSource r1 == nil && (r0 != ifaceOf(iter) ==> iter.numSources == 1)
